@@ -9,13 +9,24 @@ LEVEL = "exploration"
 SHARDS = {"quick": 1, "thorough": 16}
 DECO_KW = dict(n_pre=(0, 2), n_post=(0, 4), n_snap=(0, 2), n_wraps=(0, 1),
                err_forms=("default", "default", "class", "baseclass", "instance", "lambda", "def", "method"))
-HIER_KW = dict(n_classes=(1, 3), dag=False, with_invs=True, with_init=True, with_new=True)
+HIER_KW = dict(n_classes=(1, 4), dag=True, multi_root=True, with_invs=True, with_init=True, with_new=True)
 JUDGE = S.judge_c02
 KNOWN = {}
 
 
-def strategy():
-    return st.one_of(D.st_function_case(DECO_KW), D.st_class_case(DECO_KW, HIER_KW), D.st_class_case(DECO_KW, HIER_KW))
+@st.composite
+def strategy(draw):
+    case = draw(st.one_of(D.st_function_case(DECO_KW), D.st_class_case(DECO_KW, HIER_KW), D.st_class_case(DECO_KW, HIER_KW)))
+    # on async callables a postcondition may deliver its verdict as any awaitable (C02: "every effective
+    # postcondition is evaluated against the returned value")
+    p = case["program"]
+    for f in list(p.get("funcs", [])) + [m for c in p.get("classes", []) for m in c.get("members", [])]:
+        if f.get("async"):
+            for d in f.get("decos", []):
+                if d["t"] == "ensure" and draw(st.integers(0, 2)) == 0:
+                    d["flavor"] = draw(st.sampled_from(["corofunc", "ret_coro", "awaitable", "future"]))
+                    d["lam"] = False
+    return case
 
 
 def exclude(ctx, case, model):
